@@ -7,7 +7,8 @@ from hypothesis import strategies as st
 from harness.common import Ctx, drive, guard
 
 RULE = ("Hypothesis draws a sorted grid (1-200 elements: arange-style uniform, random, with repeats) and values "
-        "(random finite floats, grid elements, exact mid-points, far out-of-range); non-trivial = at least one value "
+        "(random finite floats, grid elements, exact mid-points, far out-of-range), as 1-3-d arrays of several dtypes and memory "
+        "layouts; the grid itself may be an integer / float32 array when its elements are representable; non-trivial = at least one value "
         "is an exact mid-point, an end-point or outside the grid range; distinct = hash of (grid, values).")
 ASSUMPTIONS = ["distance comparison uses correctly rounded double subtraction, the same arithmetic the statement's "
                "'distance' is evaluated in; NaN / infinite values are not generated (the property says finite)"]
